@@ -7,25 +7,27 @@
    (year/month/day of the local day number: C01; day of year, weekday, ISO week: C02; clock fields of the local time).
    Model (FormatModel): parse_format_string (replace "''" by NUL, run-length tokenizer with quote state) and the
    three format() methods through format_date_part / format_time_part / format_zone / format_period / unquote_part.
-   PROVED, for every value, every offset and every item list of the grammar `swf` (each item well formed; adjacent
-   runs differ in their character; a quoted text is followed by a run and begins with a character other than an
-   apostrophe — leading apostrophes are written as a PApos item in front, which is the same pattern text):
-   the output is Ok and equals the concatenation, in order, of the items rendered by the table — nothing else.
-   swf is contained in the item grammar the harness generates (C11_grammar). *)
+   PROVED, for every value, every offset and every item list of the grammar wf_items (the grammar the harness
+   generates from: each item well formed; adjacent runs differ in their character; quoted texts and escaped-apostrophe
+   items are separated by runs; a quoted text contains a character other than an apostrophe):
+   the output is Ok and equals the concatenation, in order, of the items rendered by the table - nothing else.
+   The proof goes through the normal form swf (a quoted text starts with a character other than an apostrophe, its
+   leading apostrophes being written as an escaped-apostrophes item in front: same pattern text, same rendering -
+   C11_normal_form), the tokenizer theorem on swf and the per-symbol table theorems. *)
 From Astro Require Import Base Text CalSpec DateModel TimeModel ApiModel InstantSpec FormatModel ParseModel PatternSpec
   ValueFields TextProofs PatternProofs.
 
-Theorem C11_date : forall d items, swf None items = true ->
+Theorem C11_date : forall d items, wf_items items = true ->
   date_format d (unparse items) = Ok (render 0 (fields_of_day d 0 0) items).
-Proof. exact date_format_items. Qed.
-Theorem C11_time : forall t items, Inv_tm t -> swf None items = true ->
+Proof. exact date_format_wf. Qed.
+Theorem C11_time : forall t items, Inv_tm t -> wf_items items = true ->
   time_format t (unparse items) =
   Ok (render 1 (fields_of_day 0 ((tm_nanos t + tm_off t * NANOS_PER_SEC) mod NANOS_PER_DAY) (tm_off t)) items).
-Proof. exact time_format_items. Qed.
-Theorem C11_datetime : forall v items, Inv_dt v /\ inst_in_range (local_instant v) -> swf None items = true ->
+Proof. exact time_format_wf. Qed.
+Theorem C11_datetime : forall v items, Inv_dt v /\ inst_in_range (local_instant v) -> wf_items items = true ->
   dt_format v (unparse items) =
   Ok (render 2 (fields_of_day (local_instant v / NANOS_PER_DAY) (local_instant v mod NANOS_PER_DAY) (dt_off v)) items).
-Proof. exact dt_format_items. Qed.
+Proof. exact dt_format_wf. Qed.
 
 (* the two halves, usable on their own *)
 (* tokenizer: the parts of the printed pattern are the items' parts (escaped apostrophes as NUL) *)
@@ -38,15 +40,16 @@ Proof. exact date_field_render. Qed.
 Theorem C11_time_symbols : forall F n off c w, time_fields_agree F n off -> 1 <= w -> is_time_sym c = true ->
   format_time_part (repeat_c c (Z.to_nat w)) n off = Ok (render_field F c w).
 Proof. exact time_field_render. Qed.
-Theorem C11_grammar : forall items, swf None items = true -> wf_items items = true.
-Proof. intros items. exact (swf_wf items None). Qed.
+Theorem C11_normal_form : forall items, wf_items items = true ->
+  swf None (norm items) = true /\ unparse (norm items) = unparse items /\ forall kind F, render kind F (norm items) = render kind F items.
+Proof. exact wf_swf_norm. Qed.
 
 (* non-vacuity: yyyy-MM-dd'T'HH:mm ''xxx'' with a quoted text, escaped apostrophes and an over-long run (wwwww) *)
 Definition ex_items : list pitem :=
   [PField 121 4; PLit 45 1; PField 77 2; PLit 45 1; PField 100 2; PQuoted [84]; PField 72 2; PLit 58 1; PField 109 2; PLit 32 1;
    PApos 1; PField 120 3; PApos 1; PLit 32 1; PField 119 5].
 Example C11_example :
-  swf None ex_items = true /\
+  wf_items ex_items = true /\ swf None ex_items = true /\ wf_items [PLit 45 1; PQuoted [39; 39; 84; 39]; PField 72 2] = true /\
   unparse ex_items = [121;121;121;121;45;77;77;45;100;100;39;84;39;72;72;58;109;109;32;39;39;120;120;120;39;39;32;119;119;119;119;119] /\
   render 2 (fields_of_day 738000 (13 * 3600000000000 + 5 * 60000000000) (-1800)) ex_items
     = [50;48;50;49;45;48;55;45;51;48;84;49;51;58;48;53;32;39;45;48;48;58;51;48;39;32;51;48].
@@ -58,4 +61,4 @@ Print Assumptions C11_datetime.
 Print Assumptions C11_tokenizer.
 Print Assumptions C11_date_symbols.
 Print Assumptions C11_time_symbols.
-Print Assumptions C11_grammar.
+Print Assumptions C11_normal_form.
